@@ -30,7 +30,7 @@ func (r *Run) faultyStoreStream(prop string, rounds int) {
 			r.violation("cannot start a server with a custom store: "+err.Error(), nil)
 			return
 		}
-		r.op(fmt.Sprintf("B44 reset %d", (2 * time.Hour).Nanoseconds()), "ok")
+		r.op(fmt.Sprintf("B44 reset %d", (2*time.Hour).Nanoseconds()), "ok")
 		priv, pub := r.b44Key()
 		var salt []byte
 		if r.rng.Intn(2) == 0 {
